@@ -410,6 +410,12 @@ class SArg(Sym):
             return ("slice-of", self, k.start, k.stop, k.step)
         raise Unsupported("token subscript")
 
+    def sym_getattr(self, ex, name):
+        if name in ("strip", "lstrip", "rstrip", "replace", "removeprefix", "removesuffix", "lower", "upper", "casefold", "title"):
+            # some other string derived from the token (what exactly does not matter: it is not "the token without its first and last character")
+            return NativeStub(lambda *a, **k: (f"str.{name}-of", self) + tuple(a), f"str.{name}")
+        raise Unsupported(f"attribute .{name} of a token")
+
     def __repr__(self):
         return self.name
 
